@@ -497,16 +497,25 @@ theorem getK_wholeSel (q : Rat) (ae : Bool) (prev maxS : IMap) (votes : Votes) (
         exact ih hnd'.2 hpx
       · rw [if_neg h]; exact ih hnd'.2 hpx
 
-/-- `QuotaDistributor.evaluate`: the over-award policy applied to the dict the loop builds -/
+/-- `QuotaDistributor.evaluate` for a positive quota: the over-award policy applied to the dict the loop builds -/
 theorem quotaDistribute_eq (cfg : Cfg) (votes : Votes) (n : Nat) (prev maxS : IMap)
-    (hq : cfg.quota (sumVals votes) n ≠ 0) (hnd : (votes.map (·.1)).Nodup) :
+    (hq : 0 < cfg.quota (sumVals votes) n) (hnd : (votes.map (·.1)).Nodup) :
     quotaDistribute cfg votes n prev maxS =
       applyPolicy cfg votes n prev
         (votes.filterMap (awardOf (cfg.quota (sumVals votes) n) cfg.acceptEqual prev maxS)) := by
   unfold quotaDistribute
   simp only
-  rw [wholeLoop_eq hq cfg.acceptEqual prev maxS votes [] hnd (fun _ _ => rfl)]
+  rw [if_neg (not_le.mpr hq),
+    wholeLoop_eq (ne_of_gt hq) cfg.acceptEqual prev maxS votes [] hnd (fun _ _ => rfl)]
   simp
+
+/-- a non-positive quota is refused before anything is computed (repair eca6e34) -/
+theorem quotaDistribute_nonpos (cfg : Cfg) (votes : Votes) (n : Nat) (prev maxS : IMap)
+    (hq : cfg.quota (sumVals votes) n ≤ 0) :
+    quotaDistribute cfg votes n prev maxS = .error .votingSystemError := by
+  unfold quotaDistribute
+  simp only
+  rw [if_pos hq]
 
 /-! ### the subtract loop -/
 
@@ -1406,17 +1415,17 @@ theorem length_lrRems (q : Rat) (ae : Bool) (prev maxS : IMap) (votes : Votes) :
 /-! ### which exceptions can escape -/
 
 theorem wholeStep_err {q : Rat} {ae : Bool} {prev maxS : IMap} {sel : Sel} {p : Cand × Rat} {e : Err}
-    (h : wholeStep q ae prev maxS sel p = .error e) : e = zeroDiv := by
+    (h : wholeStep q ae prev maxS sel p = .error e) : e = zeroDiv ∧ q = 0 := by
   unfold wholeStep at h
   simp only at h
   split at h
   · split at h
-    · injection h with h; exact h.symm
+    · rename_i hq0; injection h with h; exact ⟨h.symm, hq0⟩
     · split at h <;> cases h
   · cases h
 
 theorem wholeLoop_err {q : Rat} {ae : Bool} {prev maxS : IMap} {e : Err} (votes : Votes) :
-    ∀ sel, wholeLoop q ae prev maxS sel votes = .error e → e = zeroDiv := by
+    ∀ sel, wholeLoop q ae prev maxS sel votes = .error e → e = zeroDiv ∧ q = 0 := by
   induction votes with
   | nil => intro sel h; cases h
   | cons p ps ih =>
@@ -1451,6 +1460,48 @@ theorem subtractLoop_err {votes : Votes} {q : Rat} {prev : IMap} {e : Err} (k : 
     · rename_i e' he
       injection h with h
       rw [← h]; exact subtractStep_err he
+
+theorem applyPolicy_err {cfg : Cfg} {votes : Votes} {n : Nat} {prev : IMap} {sel : Sel} {e : Err}
+    (h : applyPolicy cfg votes n prev sel = .error e) :
+    e = .votingSystemError ∨ e = indexErr ∨ e = nestedTie := by
+  unfold applyPolicy at h
+  simp only at h
+  split at h
+  · cases hpol : cfg.onOver with
+    | ignore => rw [hpol] at h; cases h
+    | error => rw [hpol] at h; injection h with h; exact Or.inl h.symm
+    | subtract =>
+      rw [hpol] at h
+      simp only [subtractOveraward] at h
+      exact Or.inr (subtractLoop_err _ _ h)
+  · cases h
+
+/-- for EVERY quota and every input (well-formed or not) the exceptions that can escape are the declared
+    `VotingSystemError`, the withdrawal loop's `IndexError`, and the model's own `Model:NestedTie` marker;
+    in particular never `ZeroDivisionError` -/
+theorem quotaDistribute_err {cfg : Cfg} {votes : Votes} {n : Nat} {prev maxS : IMap} {e : Err}
+    (h : quotaDistribute cfg votes n prev maxS = .error e) :
+    e = .votingSystemError ∨ e = indexErr ∨ e = nestedTie := by
+  unfold quotaDistribute at h
+  simp only at h
+  split at h
+  · injection h with h; exact Or.inl h.symm
+  · rename_i hq
+    split at h
+    · rename_i e' he
+      exfalso
+      have := (wholeLoop_err votes _ he).2
+      rw [this] at hq
+      exact hq (le_refl 0)
+    · exact applyPolicy_err h
+
+theorem quotaDistribute_ok_pos {cfg : Cfg} {votes : Votes} {n : Nat} {prev maxS : IMap} {r : Sel}
+    (h : quotaDistribute cfg votes n prev maxS = .ok r) : 0 < cfg.quota (sumVals votes) n := by
+  unfold quotaDistribute at h
+  simp only at h
+  split at h
+  · cases h
+  · rename_i hq; exact not_le.mp hq
 
 end QD
 end VL
